@@ -27,6 +27,12 @@ CHECKS = {
         "Trusted: torch tensor equality. Non-contiguous inputs not generated; non-float32 dtypes only judged when accepted.",
         "3 C04",
     ),
+    "C18": (
+        "runtime monitoring: op-by-op reference-model monitor (independent bit-mask arithmetic) plus law-level oracles (irreducibility, element order, coset-product minimal polynomials) on the real algebra classes",
+        "Exhaustive on polynomial pairs below degree 8, field pairs (m<=6 quick / m<=8 thorough) and triples (m<=4/5); seeded random above up to degree 200 / m=16; primitive-element order decided for every m=1..16. Exploration with exhaustive sub-spaces.",
+        "Trusted: vk.oracles.gf2m after self-test against textbook primitive polynomials, the GF(16) table and known BCH generators.",
+        "3 C18",
+    ),
 }
 
 ALL = [f"C{i:02d}" for i in range(1, 21)]
